@@ -12,9 +12,9 @@ PURGE = PART + '::purge'
 PARTITION_TABLE = {
     'current_offset': {
         # last_offset = base_offset + (messages_count - 1); base = current_offset + 1 | 0
-        APPEND: ['((phi{($u32 + 1) | 0} - 1) + phi{($Partition.current_offset + 1) | 0})'] * 2,
+        APPEND: ['((phi{($u32 + 1) | 0} - 1) + phi{(1 + self.current_offset) | 0})'],
         PURGE: ['0'],
-        LOAD: ['$Segment.current_offset'],          # recovered from the last segment
+        LOAD: ['[T]::last(partition.segments).current_offset'],          # recovered from the last segment
     },
     'should_increment_offset': {
         APPEND: ['1'],
@@ -24,28 +24,28 @@ PARTITION_TABLE = {
 }
 SEGMENT_TABLE = {
     'current_offset': {
-        SEG + '::append_batch': ['BatchAccumulator::batch_max_offset(Option::get_or_insert_with($Segment.unsaved_messages, closure))'],
-        SEG + '::load_from_disk': ['($Segment.start_offset + phi{0 | [T]::last($Segment.indexes).offset})'],   # from the last index entry
+        SEG + '::append_batch': ['BatchAccumulator::batch_max_offset(Option::get_or_insert_with(self.unsaved_messages, closure))'],
+        SEG + '::load_from_disk': ['(phi{0 | [T]::last(self.indexes).offset} + self.start_offset)'],   # from the last index entry
     },
     'end_offset': {
-        SEG + '::persist_messages': ['$Segment.current_offset'],     # on close
-        LOAD: ['::index(Iterator::collect(Iterator::map(Iterator::skip([T]::iter($Partition.segments), 1), closure)), ::next(::into_iter(Iterator::enumerate([T]::iter_mut(Partition::get_segments_mut($Partition))))).0.0)',
-               '$Segment.current_offset'],                           # next.start_offset - 1 ; closed last segment
+        SEG + '::persist_messages': ['self.current_offset'],     # on close
+        LOAD: ['re:^::index\\(Iterator::collect\\(Iterator::map\\(Iterator::skip\\(\\[T\\]::iter\\(partition\\.segments\\), 1\\), closure\\)\\), .*\\)$',
+               '[T]::last(partition.segments).current_offset'],                           # next.start_offset - 1 ; closed last segment
     },
     'is_closed': {
         SEG + '::persist_messages': ['1'],
         SEG + '::load_from_disk': ['1'],
     },
     'last_index_position': {
-        SEG + '::load_from_disk': ['Atomic::load($Segment.log_size_bytes, Ordering::Acquire{})'],   # end of the log, not start of the last batch
-        SEG + '::persist_messages': ['($Segment.last_index_position + ::get_size_bytes(BatchAccumulator::materialize_batch_and_update_state(Option::take($Segment.unsaved_messages))))'],
+        SEG + '::load_from_disk': ['Atomic::load(self.log_size_bytes, Ordering::Acquire{})'],   # end of the log, not start of the last batch
+        SEG + '::persist_messages': ['(::get_size_bytes(BatchAccumulator::materialize_batch_and_update_state(Option::take(self.unsaved_messages))) + self.last_index_position)'],
     },
     'size_bytes': {
-        SEG + '::load_from_disk': ['Atomic::load($Segment.log_size_bytes, Ordering::Acquire{})'],
+        SEG + '::load_from_disk': ['Atomic::load(self.log_size_bytes, Ordering::Acquire{})'],
     },
     'unsaved_messages': {
-        LOAD: ['BatchAccumulator::new($Segment.current_offset, $Partition.config.partition.messages_required_to_save)'],
-        SEG + '::persist_messages': ['Option::take($Segment.unsaved_messages)', 'Option::None{}'],
+        LOAD: ['BatchAccumulator::new($Segment.current_offset, partition.config.partition.messages_required_to_save)'],
+        SEG + '::persist_messages': ['Option::take(self.unsaved_messages)', 'Option::None{}'],
     },
 }
 
